@@ -219,8 +219,59 @@ func c15Scenarios(tier mc.Tier) []mc.Scenario {
 	return out
 }
 
+// c15Primed: (format, key) for which this process has already produced one validly timestamped signature.
+var c15Primed sync.Map
+
+// c15Prime signs once with the valid two- and three-certificate authorities and an all-OK revocation validator (per process and per
+// format/key, so also in a replay process): what the library keeps from a good timestamp must not help a bad one.
+func c15Prime(w *tsaWorld, media, keyName string) {
+	if _, done := c15Primed.LoadOrStore(media+"/"+keyName, true); done {
+		return
+	}
+	for _, name := range []string{"granted-valid-chain2", "granted-valid-chain3"} {
+		var b *tsaBehaviour
+		for i := range c15Behaviours {
+			if c15Behaviours[i].name == name {
+				b = &c15Behaviours[i]
+			}
+		}
+		if b == nil {
+			continue
+		}
+		var issued []byte
+		tr := &netsim.Transport{Handler: func(r *netsim.Request, raw *http.Request) netsim.Answer {
+			var req tspclient.Request
+			if err := req.UnmarshalBinary(r.Body); err != nil {
+				return netsim.Answer{Status: 400}
+			}
+			return b.reply(w, &req, &issued)
+		}}
+		ls, err := signature.NewLocalSigner(pki.X509s(chainFor(keyName)), pki.K(keyName).Priv)
+		if err != nil {
+			return
+		}
+		ts, err := tspclient.NewHTTPTimestamper(tr.Client(), "http://tsa.test/")
+		if err != nil {
+			return
+		}
+		req := &signature.SignRequest{
+			Payload: signature.Payload{ContentType: "application/vnd.cncf.notary.payload.v1+json", Content: []byte(`{"primed":true}`)},
+			Signer:  ls, SigningTime: pki.Now, SigningScheme: signature.SigningSchemeX509, TSARootCAs: w.pool, Timestamper: ts,
+			TSARevocationValidator: validatorFunc(func(ctx context.Context, opts revocation.ValidateContextOptions) ([]*result.CertRevocationResult, error) {
+				var out []*result.CertRevocationResult
+				for range opts.CertChain {
+					out = append(out, &result.CertRevocationResult{Result: result.ResultOK, ServerResults: []*result.ServerResult{{Result: result.ResultOK}}})
+				}
+				return out, nil
+			}),
+		}
+		doSign(media, req)
+	}
+}
+
 func c15Body(c *mc.Ctx, media, scheme, keyName string) {
 	w := tsaGetWorld()
+	c15Prime(w, media, keyName)
 	useTS := c.ChooseFree("timestamper", 2) == 0 // 0 = set, 1 = nil
 	derive := c.ChooseFree("request-derived-with-WithContext", 2) == 1
 	bi := 0
